@@ -135,6 +135,27 @@ def canon(a, rel, b):
     return (a, rel, b)
 
 
+def _nonempty_array_ref(fn, o, depth=0):
+    """operand is a reference to an array of at least one element (possibly unsized to a slice): `b"/"`, `&[1, 2]`"""
+    p = op_place(o)
+    if p is None or depth > 5:
+        k = o.get("k") if isinstance(o, dict) else None
+        return False
+    m = re.match(r"^&(?:'\w+ )?(?:mut )?\[[^;\]]+; (\d+)\]$", fn.locals[p[0]])
+    if m:
+        return int(m.group(1)) >= 1
+    d = fn.single_def(p[0])
+    if d is None or d[1] != "assign":
+        return False
+    rv = d[2]["rv"]
+    if rv["r"] in ("use", "cast"):
+        return _nonempty_array_ref(fn, rv["o"], depth + 1)
+    if rv["r"] == "ref":
+        q = rv["p"]
+        return _nonempty_array_ref(fn, {"c": [q[0]]}, depth + 1) if q else False
+    return False
+
+
 class Facts6:
     """facts of one body"""
 
@@ -266,6 +287,14 @@ class Facts6:
                     sharers = [w for w in list(sw[3].keys()) + list(sw[5]) if w != v and set(fn.variant_edges(sw, w)) & set(e)]
                     if not sharers:
                         out.add((pd, "is", v))
+        # `s.starts_with(P)` / `s.ends_with(P)` holds for a non-empty constant pattern P  =>  s is not empty
+        for c in fn.calls(r"slice::(<impl \[T\]>::)?(starts_with|ends_with)$|str::(<impl str>::)?(starts_with|ends_with)$"):
+            if len(c.args) != 2 or len(c.dest) != 1 or not _nonempty_array_ref(fn, c.args[1]):
+                continue
+            for sw, t, f in fn.bool_tests(c.dest[0]):
+                if sw != site and fn.only_via(site, sw, [t]):
+                    for d in (self.d, self.dx):
+                        out.add(canon("0", "!=", "len(%s)" % d.op(c.args[0]).lstrip("&")))
         # `s.last()` / `s.first()` is Some  =>  s is not empty (whether tested with `== Some(..)`, `matches!`, `if let Some(..)`)
         for f in list(out):
             a, rel, b = f
